@@ -139,6 +139,19 @@ CHECKS = {
         "signatures listed in known_findings.json.",
         "DESIGN.md section 5 C08",
     ),
+    "C05": (
+        "vmc/c05.py (E1 over script shapes; C03 reference fold + path composition as oracle)",
+        "exploration",
+        "deviation-bounded exhaustive enumeration of scripts (statements x separators x leading/trailing noise); statements() and lineage vs. combination of single-statement analyses",
+        "Every script within 3 (quick) / 4 (thorough) deviations of a single plain INSERT over: 1-3 (1-5) statements from a pool of 10-12 (';' in a literal, in a "
+        "quoted identifier, doubled-quote escape, $$ literal, SELECT, DROP, UPDATE, union, a reader of an earlier target, RENAME, SELECT INTO), 8 separators "
+        "(with comments containing ';' and comment-only pieces), 5 leading and 5 trailing variants; ansi, mysql, tsql (+ postgres, sparksql); tsql no-semicolon mode "
+        "by environment and by scoped override. statements() must be exactly the statements in order; tables must equal the C03 reference fold of what each "
+        "statement reports alone, column pairs the composition of the statements' own column paths.",
+        "Trusted: the pool statements analysed alone through the public API (their correctness is C01/C02's business); the C03 reference fold; text normal form "
+        "(whitespace collapse, trailing semicolons).",
+        "DESIGN.md section 5 C05",
+    ),
 }
 
 NOT_YET = "check not built yet in this revision (planned in DESIGN.md section 5/11); not claimed"
